@@ -1300,18 +1300,19 @@ def dump_nopos(n, drop_decorators=False):
     return ast.dump(n, include_attributes=False)
 
 
-class _BlankStrings(ast.NodeTransformer):
-    def visit_Constant(self, n):
-        return ast.Constant(value="") if isinstance(n.value, (str, bytes)) else n
-
-
 def dump_shape(n, drop_decorators=False):
-    """Dump without positions and with every string constant blanked (dedent changes the text inside multi-line strings)."""
-    import copy
-    n = copy.deepcopy(n)
-    if drop_decorators and hasattr(n, "decorator_list"):
-        n.decorator_list = []
-    return ast.dump(_BlankStrings().visit(n), include_attributes=False)
+    """Structure of a node without positions and with every string constant blanked (dedent changes the text inside
+    multi-line strings); no copy is made."""
+    def rec(x, top):
+        if isinstance(x, ast.AST):
+            if isinstance(x, ast.Constant) and isinstance(x.value, (str, bytes)):
+                return ("Constant", "")
+            return (type(x).__name__,) + tuple(
+                rec([] if (top and drop_decorators and f == "decorator_list") else getattr(x, f, None), False) for f in x._fields)
+        if isinstance(x, list):
+            return tuple(rec(y, False) for y in x)
+        return x
+    return rec(n, True)
 
 
 def walk_objects(mod):
